@@ -64,6 +64,66 @@ def gen_cases(tier, seed):
     return cases
 
 
+def run_O_case(case):
+    """assert / __debug__ removal equals what the interpreter's -O mode runs: observe(input, optimize=1) == observe(output, optimize=1)"""
+    import python_minifier as pm
+    from vf.oracle import observe
+    src = case['src']
+    res = {'status': 'held', 'violations': [], 'counters': {}, 'nontrivial': []}
+    a = observe.observe(src, optimize=1)
+    if a['outcome'] in ('timeout', 'child-died') or a['outcome'].startswith('compile-error'):
+        return {'status': 'skip', 'reason': 'original under -O: ' + a['outcome']}
+    if observe.same(a, observe.observe(src, optimize=1)):
+        return {'status': 'skip', 'reason': 'original is not self-stable'}
+    for name, o in case['optsets']:
+        try:
+            out = pm.minify(src, **common.opts_to_kwargs(o, pm))
+            off = dict(o)
+            off['remove_asserts'] = off['remove_debug'] = False
+            out_off = pm.minify(src, **common.opts_to_kwargs(off, pm))
+        except Exception:
+            continue
+        q = observe.observe(out, optimize=1)
+        if q['outcome'].startswith('compile-error'):
+            continue
+        # reference = the same option set without the two removals, also under -O (isolates assert / __debug__ removal from the other options)
+        a = observe.observe(out_off, optimize=1)
+        if a['outcome'].startswith('compile-error') or a['outcome'] in ('timeout', 'child-died'):
+            continue
+        res['counters']['optimize_equivalence_runs'] = res['counters'].get('optimize_equivalence_runs', 0) + 1
+        if out != out_off:
+            res['nontrivial'].append('O|' + common.sha(src) + '|' + name)
+        d = observe.same(a, q)
+        if d:
+            res['violations'].append({'mech': None, 'detail': 'under -O the output of [%s] behaves differently from the same option set without assert/__debug__ removal under -O: %s' % (name, observe.describe_diff(a, q)),
+                                      'witness': {'optset': name, 'opts': o, 'out': out[:1500]}})
+    if res['violations']:
+        res['status'] = 'violation'
+    return res
+
+
+def O_cases(tier, seed):
+    r = common.rng(seed, 'C05-O')
+    out = []
+    sets = []
+    for ra, rd in ((True, False), (False, True), (True, True)):
+        for base_name, base in (('all_off', options.all_off()), ('default', options.default())):
+            o = dict(base)
+            o['remove_asserts'] = ra
+            o['remove_debug'] = rd
+            sets.append(('%s+asserts=%s+debug=%s' % (base_name, ra, rd), o))
+    trig = [c for c in triggergen.cases() if c['option'] in ('remove_asserts', 'remove_debug')]
+    if tier == 'quick':
+        r.shuffle(trig)
+        trig = trig[:220]
+    for c in trig:
+        out.append({'shape': c['shape'], 'src': c['src'], 'optsets': sets, 'timeout': 100})
+    for i in range(120 if tier == 'quick' else 2500):
+        s, tags = modgen.generate(seed, 45000 + i, guarded=True, size=10, features=['debug', 'if'])
+        out.append({'shape': 'modgen.guarded', 'src': s, 'optsets': sets[3:], 'timeout': 100})
+    return out
+
+
 def main(tier, seed):
     run = runner.Run(PROP, tier, seed)
     cases = gen_cases(tier, seed)
@@ -87,14 +147,30 @@ def main(tier, seed):
         run.add(slim, r)
     pool.run_cases(light, 'vf.props.nameeng:run_case', timeout=30, batch=30, on_result=on, deadline=run.deadline)
     pool.run_cases(heavy, 'vf.props.nameeng:run_case', timeout=60, batch=2, on_result=on, deadline=run.deadline)
+    def on_O(c, r):
+        slim = {'shape': c['shape'], 'layer': 'optimize'}
+        if r.get('status') == 'violation':
+            slim['src'] = c['src']
+        run.add(slim, r)
+    pool.run_cases(O_cases(tier, seed), 'vf.props.C05:run_O_case', timeout=120, batch=4, on_result=on_O, deadline=run.deadline)
     return run.finish(
         rule='every option\'s trigger statement and each near-miss of its side condition in 21 contexts (module, def, class, if/elif/else, for/while '
              '(+else), try/except/else/finally, except*, with, match-case, nested, async) x {single-on from all-off, single-off from all-on, all-off, '
              'default, all-on, pairwise, random}; seeds, random modules and stdlib files x standard / pairwise / random option sets; '
              'non-trivial/distinct = distinct (source, option set) where the output differs from the input and a documented rule fired',
         assumptions=['vf/oracle/matcher.py encodes docs/source/transforms/*.rst; an implementation may rewrite less than documented, never more'],
-        min_nontrivial=150, required_counters=['matcher_runs'])
+        min_nontrivial=150, required_counters=['matcher_runs', 'optimize_equivalence_runs'])
 
 
 def replay(path):
+    w = runner.load_replay(path)
+    if w['case'].get('layer') == 'optimize':
+        import json
+        wit = w['witness']
+        r = run_O_case({'shape': w['case']['shape'], 'src': w['case']['src'], 'optsets': [(wit['optset'], wit['opts'])]})
+        print(json.dumps(r, indent=1)[:3000])
+        if r.get('violations'):
+            print('VIOLATION property=%s replay=%s' % (PROP, path))
+            return 1
+        return 0
     return nameeng.replay_case(path, PROP)
